@@ -584,7 +584,10 @@ class FileCache:
                     index = filepaths.index(cache_miss.filepath)
                     filepaths.pop(index)
 
-        size_of_requested_data = _get_total_size_of_files_in_bytes(filepaths)
+        # A uri may be listed more than once; count each requested file only once.
+        size_of_requested_data = _get_total_size_of_files_in_bytes(
+            list(dict.fromkeys(filepaths))
+        )
         if size_of_requested_data > self.config.max_size_bytes:
             warning = (
                 f"The requested data does not fit into the cache."
